@@ -70,6 +70,7 @@ struct Cfg {
   int rad_mode = 0;       // 0: radiation every step, 1: every 2.5 steps
   double max_neutral = -1.;
   bool diffuse_rhd = false;
+  int copy_level = 0; // source copy level of the radiation step
   // C01 RHD part: reduced buffer / task pools (see ion::Cfg::tight_pools)
   bool tight_pools = false;
   long nbuffers = 0, ntasks = 0; // 0 = capacities that cannot be exhausted
@@ -144,6 +145,7 @@ struct Cfg {
     j["rad_mode"] = rad_mode;
     j["max_neutral"] = dbl_bits(max_neutral);
     j["diffuse_rhd"] = diffuse_rhd;
+    j["copy_level"] = copy_level;
     j["tight_pools"] = tight_pools;
     j["nbuffers"] = (long long)nbuffers;
     j["ntasks"] = (long long)ntasks;
@@ -211,6 +213,7 @@ struct Cfg {
     c.rad_mode = (int)j.at("rad_mode").as_int(0);
     c.max_neutral = j.has("max_neutral") ? bits_dbl(j.at("max_neutral").as_string()) : -1.;
     c.diffuse_rhd = j.at("diffuse_rhd").as_bool();
+    c.copy_level = (int)j.at("copy_level").as_int(0);
     c.tight_pools = j.at("tight_pools").as_bool();
     c.nbuffers = j.at("nbuffers").as_int(0);
     c.ntasks = j.at("ntasks").as_int(0);
@@ -387,7 +390,8 @@ struct Cfg {
     o << "  number of iterations: 2\n";
     o << "  number of photons: " << packets << "\n";
     o << "  number of buffers: "
-      << (nbuffers > 0 ? nbuffers : packets + 27 * total_subgrids() * 4 + 64)
+      << (nbuffers > 0 ? nbuffers
+                       : packets + 27 * total_subgrids() * (4 << copy_level) + 64)
       << "\n";
     o << "  number of tasks: "
       << (ntasks > 0 ? ntasks : 18 * total_subgrids() + 6 * packets + 2000)
@@ -396,7 +400,7 @@ struct Cfg {
       << "\n";
     o << "  shared queue size: " << 18 * total_subgrids() + 6 * packets + 2000
       << "\n";
-    o << "  source copy level: 0\n";
+    o << "  source copy level: " << copy_level << "\n";
     o << "  random seed: " << seed << "\n";
     o << "  output folder: " << dir << "\n";
     o << "  use mask: " << (mask ? "true" : "false") << "\n";
